@@ -66,6 +66,113 @@ Definition apply_op (md : tmodes) (op : modeop) : tmodes :=
 
 Definition apply_ops (ops : list modeop) : tmodes := fold_left apply_op ops modes0.
 
+(* ---------- the mode state as the child's OUTPUT produces it ---------- *)
+(* mode.go decset / decrst: `for _, param := range params { switch param[0] { ... } }` — every parameter
+   of the control function is visited, in order, whatever the others are (1049 included: leaving the
+   alternate screen does not end the loop).  param[0] of an empty parameter is the Go panic ([None]);
+   the parser never delivers one. *)
+Fixpoint mode_params (b : bool) (params : list (list Z)) (md : tmodes) : option tmodes :=
+  match params with
+  | [] => Some md
+  | p :: rest =>
+      match p with
+      | [] => None
+      | n :: _ => mode_params b rest (dec_mode md n b)
+      end
+  end.
+
+(* csi.go csi(): the key is string(intermediate) + string(final); "?h" = decset, "?l" = decrst.  Every
+   other CSI ("h" / "l" = SM / RM of the ANSI modes, "?$p" = DECRQM, SGR, cursor movement ...) leaves the
+   input-related modes alone. *)
+Definition is_decpriv (inter : list Z) : bool := zlist_eqb inter [63].        (* "?" *)
+Definition child_csi (md : tmodes) (inter : list Z) (params : list (list Z)) (final : Z) : option tmodes :=
+  if is_decpriv inter && (final =? 104) then mode_params true params md
+  else if is_decpriv inter && (final =? 108) then mode_params false params md
+  else Some md.
+
+(* esc.go esc(): "=" DECKPAM, ">" DECKPNM, "c" RIS (vt.mode = mode{decawm, dectcem}: every input-related
+   mode off) *)
+Definition child_esc (md : tmodes) (inter : list Z) (final : Z) : tmodes :=
+  match inter with
+  | [] => if final =? 61 then set_deckpam md true
+          else if final =? 62 then set_deckpam md false
+          else if final =? 99 then modes0
+          else md
+  | _ => md
+  end.
+
+(* the input-related modes DECRQM reports (mode.go decrqm) *)
+Definition mode_bit (md : tmodes) (n : Z) : option bool :=
+  if n =? 1 then Some (m_decckm md)
+  else if n =? 1000 then Some (m_buttons md)
+  else if n =? 1002 then Some (m_drag md)
+  else if n =? 1003 then Some (m_motion md)
+  else if n =? 1006 then Some (m_sgr md)
+  else if n =? 1007 then Some (m_altscroll md)
+  else if n =? 1049 then Some (m_smcup md)
+  else if n =? 2004 then Some (m_paste md)
+  else None.
+
+Definition reported_modes : list Z := [1; 1000; 1002; 1003; 1006; 1007; 1049; 2004].
+
+(* fmt.Fprintf(vt.pty, "\x1B[?%d;%d$y", pd, ps) with ps = 1 (set) / 2 (reset), for the modes above *)
+Definition decrqm_reply (md : tmodes) (n : Z) : list Z :=
+  match mode_bit md n with
+  | Some b => [27; 91; 63] ++ dec n ++ [59] ++ dec (if b then 1 else 2) ++ [36; 121]
+  | None => []
+  end.
+Definition mode_report (md : tmodes) : list Z := flat_map (decrqm_reply md) reported_modes.
+
+(* ---------- specification side: what the child asked for ---------- *)
+(* The control functions of the child's output that concern the input-related modes, as the child meant
+   them: DECSET / DECRST with the list of modes they name, the keypad switches, the full reset. *)
+Inductive creq :=
+  | QSet (ns : list Z)       (* CSI ? n1 ; n2 ; ... h *)
+  | QReset (ns : list Z)     (* CSI ? n1 ; n2 ; ... l *)
+  | QKpam | QKpnm            (* ESC =   ESC > *)
+  | QRis.                    (* ESC c *)
+
+Definition names (watch ns : list Z) : bool := existsb (fun n => existsb (Z.eqb n) watch) ns.
+
+(* mode n is named by one of the parameters of a control function (its first sub-parameter) *)
+Definition heads (params : list (list Z)) : list Z := map (hd 0) params.
+Definition listed (n : Z) (params : list (list Z)) : bool := names [n] (heads params).
+
+(* the child's last word on the modes [watch]: the last DECSET / DECRST that names one of them — wherever in
+   its parameter list, whatever else it names — or the last full reset; [cur] if there is none *)
+Fixpoint last_word (watch : list Z) (rs : list creq) (cur : bool) : bool :=
+  match rs with
+  | [] => cur
+  | QSet ns :: t => last_word watch t (if names watch ns then true else cur)
+  | QReset ns :: t => last_word watch t (if names watch ns then false else cur)
+  | QRis :: t => last_word watch t false
+  | _ :: t => last_word watch t cur
+  end.
+
+Fixpoint last_keypad (rs : list creq) (cur : bool) : bool :=
+  match rs with
+  | [] => cur
+  | QKpam :: t => last_keypad t true
+  | QKpnm :: t => last_keypad t false
+  | QRis :: t => last_keypad t false
+  | _ :: t => last_keypad t cur
+  end.
+
+(* the modes the child has selected, read off its requests.  Alternate scroll (1007) is also switched by
+   1049: on when the alternate screen is entered, off when it is left. *)
+Definition asked_from (md : tmodes) (rs : list creq) : tmodes :=
+  mkModes (last_keypad rs (m_deckpam md)) (last_word [1] rs (m_decckm md)) (last_word [2004] rs (m_paste md))
+          (last_word [1000] rs (m_buttons md)) (last_word [1002] rs (m_drag md)) (last_word [1003] rs (m_motion md))
+          (last_word [1006] rs (m_sgr md)) (last_word [1007; 1049] rs (m_altscroll md)) (last_word [1049] rs (m_smcup md)).
+Definition asked (rs : list creq) : tmodes := asked_from modes0 rs.
+
+Definition creq_eqb (a b : creq) : bool :=
+  match a, b with
+  | QSet x, QSet y | QReset x, QReset y => list_eqb Z.eqb x y
+  | QKpam, QKpam | QKpnm, QKpnm | QRis, QRis => true
+  | _, _ => false
+  end.
+
 Definition modes_eqb (a b : tmodes) : bool :=
   Bool.eqb (m_deckpam a) (m_deckpam b) && Bool.eqb (m_decckm a) (m_decckm b) && Bool.eqb (m_paste a) (m_paste b) &&
   Bool.eqb (m_buttons a) (m_buttons b) && Bool.eqb (m_drag a) (m_drag b) && Bool.eqb (m_motion a) (m_motion b) &&
